@@ -177,23 +177,24 @@ class MarginRule(cssrule.CSSRule):
                                                     prods)
 
         if ok:
-            # TODO: use seq for serializing instead of fixed stuff?
-            self._setSeq(seq)
-
-            if 'margin' in store:
-                # may raise:
-                self.margin = store['margin'].value
-            else:
+            # everything that may be rejected first, then set all
+            if 'margin' not in store:
                 self._log.error('No margin @keyword for this %s rule' %
                                 self.margin,
                                 error=xml.dom.InvalidModificationErr)
 
             # new empty style
-            self.style = CSSStyleDeclaration(parentRule=self)
+            newstyle = CSSStyleDeclaration(parentRule=self)
 
             if 'styletokens' in store:
                 # may raise:
-                self.style.cssText = store['styletokens']
+                newstyle.cssText = store['styletokens']
+
+            # TODO: use seq for serializing instead of fixed stuff?
+            self._setSeq(seq)
+            if 'margin' in store:
+                self.margin = store['margin'].value
+            self.style = newstyle
 
     cssText = property(fget=_getCssText, fset=_setCssText,
                        doc="(DOM) The parsable textual representation.")
